@@ -98,7 +98,7 @@ func vMkURI(name string, nShapes int) vURI {
 		if !u.empty[i] {
 			b := vByte(name + ".c")
 			// [a-v]: no harness URI can match the router's own wamp.* meta topics
-			vAssume(b >= 'a' && b <= 'v')
+			vAssume(vAnd(b >= 'a', b <= 'v'))
 			u.c[i] = b
 		}
 	}
@@ -210,7 +210,7 @@ var vMatches = []string{wamp.MatchExact, wamp.MatchPrefix, wamp.MatchWildcard}
 // vValidID returns a symbolic WAMP id in [1, 2^53].
 func vValidID(name string) wamp.ID {
 	v := vUint64(name)
-	vAssume(v >= 1 && v <= 1<<53)
+	vAssume(vAnd(v >= 1, v <= 1<<53))
 	return wamp.ID(v)
 }
 
@@ -229,7 +229,7 @@ func vIDAs(name string, id wamp.ID) any {
 
 func vStr1(name string) string {
 	b := vByte(name)
-	vAssume(b >= 'a' && b <= 'z')
+	vAssume(vAnd(b >= 'a', b <= 'z'))
 	return string([]byte{b})
 }
 
